@@ -23,7 +23,7 @@ def oracle(tier, rng, seeds):
     from a5.core.coordinate_transforms import from_lonlat
     from a5.core.constants import distance_to_edge
     fails, st, n = [], {}, 0
-    for p in geo_gens.points(drv, tier, rng, 500 if tier == 'quick' else 30000):
+    for p in geo_gens.points(drv, tier, rng, 500 if tier == 'quick' else 120000):
         sph = from_lonlat(p)
         o, j, gap, gap2 = K.second_nearest_face(drv, sph)
         K.check_projection_roundtrip(drv, sph, o, fails, st); n += 1
@@ -31,7 +31,7 @@ def oracle(tier, rng, seeds):
             K.check_projection_roundtrip(drv, sph, j, fails, st, 'adjacent'); n += 1
         if len(fails) > 20:
             break
-    for _ in range(1500 if tier == 'quick' else 60000):
+    for _ in range(1500 if tier == 'quick' else 250000):
         o = rng.randrange(12)
         ang = rng.uniform(0, 2 * math.pi)
         th = ((ang + math.pi / 5) % (2 * math.pi / 5)) - math.pi / 5
